@@ -15,14 +15,18 @@
 EXTENDS FileFormat, FiniteSets
 
 CONSTANTS NoFaults,    \* BOOLEAN: explore only the fault-free pipeline (tree assembly, C13)
-          Products     \* set of product descriptions [imgs : Seq([pol, scan]), nmap : 0..1]
+          Products,    \* set of product descriptions [imgs : Seq([pol, scan]), nmap : 0..1]
                        \* scan = "" for stripmap products, else e.g. "F3"
+          StoreKinds,  \* how the store reports an object that is not there when a FILE is opened: "dir" (FileNotFoundError: local
+                       \* directories, object stores), "deny" (PermissionError: no list permission), "mapping" (KeyError: zip / tar archives)
+          TranslateImageKeyError   \* BOOLEAN: open_image turns that KeyError into FileNotFoundError (FALSE = the code before fix 7ac6177)
 
 VARIABLES prod,        \* the product being opened
+          store,       \* the kind of store the product lies in
           fault,       \* [file, kind, cut]  kind \in {"none", "missing", "truncated"}; cut = served length
           pc, idx, touched, groups, meta, outcome
 
-vars == <<prod, fault, pc, idx, touched, groups, meta, outcome>>
+vars == <<prod, store, fault, pc, idx, touched, groups, meta, outcome>>
 
 K(p) == Len(p.imgs)
 ImgFile(i) == "img" \o ToString(i)
@@ -48,6 +52,7 @@ MetaGroups(p) == {"dataset_summary", "platform_position", "attitude", "radiometr
                   "transformations"} \cup (IF p.nmap = 1 THEN {"map_projection"} ELSE {})
 
 Init == /\ prod \in Products
+        /\ store \in StoreKinds
         /\ fault \in (IF NoFaults THEN {NoFault} ELSE Faults(prod))
         /\ pc = "summary" /\ idx = 1 /\ touched = {} /\ groups = << >> /\ meta = {} /\ outcome = "pending"
 
@@ -59,24 +64,28 @@ Stage(f, next) ==
             /\ pc' = "done"
        ELSE /\ pc' = next /\ UNCHANGED outcome
 
-ReadSummary == pc = "summary" /\ Stage("summary", "vol") /\ UNCHANGED <<prod, fault, idx, groups, meta>>
-ReadVolDir  == pc = "vol" /\ Stage("vol", "led") /\ UNCHANGED <<prod, fault, idx, groups, meta>>
+\* summary, volume directory and leader are fetched through the MAPPER: whatever the store, a missing key is a KeyError there, and each of
+\* the three readers turns it into an OSError.  Image files are OPENED through the file system: what a missing file raises is the store's
+\* business (ImageMissingSignal) -- only the mapping-like stores need a translation.
+ImageMissingSignal == IF store = "mapping" /\ ~TranslateImageKeyError THEN "KeyError" ELSE "OSError"
+ReadSummary == pc = "summary" /\ Stage("summary", "vol") /\ UNCHANGED <<prod, store, fault, idx, groups, meta>>
+ReadVolDir  == pc = "vol" /\ Stage("vol", "led") /\ UNCHANGED <<prod, store, fault, idx, groups, meta>>
 ReadLeader  == /\ pc = "led" /\ Stage("led", "img")
                /\ meta' = IF Bad("led") THEN meta ELSE MetaGroups(prod)
-               /\ UNCHANGED <<prod, fault, idx, groups>>
+               /\ UNCHANGED <<prod, store, fault, idx, groups>>
 OpenImage   == /\ pc = "img" /\ idx <= K(prod)
                /\ touched' = touched \cup {ImgFile(idx)}
                /\ IF Bad(ImgFile(idx))
-                  THEN /\ outcome' = IF fault.kind = "missing" THEN "OSError" ELSE "error"
+                  THEN /\ outcome' = IF fault.kind = "missing" THEN ImageMissingSignal ELSE "error"
                        /\ pc' = "done" /\ UNCHANGED <<groups, idx>>
                   ELSE /\ groups' = Append(groups, [name |-> GroupName(prod.imgs[idx]), file |-> ImgFile(idx)])
                        /\ idx' = idx + 1 /\ UNCHANGED <<outcome, pc>>
-               /\ UNCHANGED <<prod, fault, meta>>
+               /\ UNCHANGED <<prod, store, fault, meta>>
 Assemble    == /\ pc = "img" /\ idx = K(prod) + 1
-               /\ pc' = "return" /\ UNCHANGED <<prod, fault, idx, touched, groups, meta, outcome>>
+               /\ pc' = "return" /\ UNCHANGED <<prod, store, fault, idx, touched, groups, meta, outcome>>
 Return      == /\ pc = "return"
                /\ outcome' = "tree" /\ pc' = "done"
-               /\ UNCHANGED <<prod, fault, idx, touched, groups, meta>>
+               /\ UNCHANGED <<prod, store, fault, idx, touched, groups, meta>>
 Done        == pc = "done" /\ UNCHANGED vars
 
 Next == ReadSummary \/ ReadVolDir \/ ReadLeader \/ OpenImage \/ Assemble \/ Return \/ Done
